@@ -231,6 +231,7 @@ func loadAll(repo, arch string) (*props.Ctx, error) {
 	}
 	normNotes = notes
 	an.KnownFuncs = props.KnownFuncs
+	an.KnownGoTargets = props.KnownGoTargets
 	p, err := an.Load(repo, overlay, arch)
 	if err != nil {
 		return nil, err
